@@ -57,6 +57,8 @@ def pre (s : St) (e : Ev) : Option String :=
   | .callRelease k _ =>
     if (s.item k).refcnt = 0 then some "program error: release without a reference" else none
   | .retRelease k recycle =>
+    -- `recycle` here is the *effective* flag: a recycling release issued while another one of the same key is
+    -- already pending is demoted to a plain release by the cache (`if (item->_recycle) recycle = false`)
     if recycle ∧ (s.item k).refcnt ≠ 0 then some "a recycling release returned while another holder still has a reference" else none
   | .dtor k o =>
     let x := s.item k
@@ -79,10 +81,10 @@ def eff (s : St) (e : Ev) : St :=
     let x := s.item k
     { s with item := upd s.item k { x with refcnt := x.refcnt - 1,
                                            lastRelease := if x.refcnt = 1 then s.now else x.lastRelease,
-                                           recycling := if recycle then x.recycling + 1 else x.recycling } }
+                                           recycling := if recycle ∧ x.recycling = 0 then 1 else x.recycling } }
   | .retRelease k recycle =>
     let x := s.item k
-    { s with item := upd s.item k { x with recycling := if recycle then x.recycling - 1 else x.recycling } }
+    { s with item := upd s.item k { x with recycling := if recycle then 0 else x.recycling } }
   | .dtor k o => { s with item := upd s.item k { s.item k with live := none }, destroyed := s.destroyed ++ [o] }
   | .tick n => { s with now := n }
 
